@@ -1015,6 +1015,15 @@ class Sim:
                 item = seq.b[i] if len(it.fields) > 2 else Ref([seq.b[i]], 0, ())
                 return ("value", Adt("std::option::Option", 1, [item]))
             return ("value", Adt("std::option::Option", 0, []))
+        # `for i in a..b` over known integer bounds
+        if has("std::iter::Iterator::next") and d and isinstance(d[0], Adt) and d[0].adt in ("std::ops::Range", "range") \
+                and len(d[0].fields) >= 2 and isinstance(d[0].fields[0], int) and isinstance(d[0].fields[1], int):
+            rg = d[0]
+            if rg.fields[0] < rg.fields[1]:
+                v = rg.fields[0]
+                rg.fields[0] = v + 1
+                return ("value", Adt("std::option::Option", 1, [v]))
+            return ("value", Adt("std::option::Option", 0, []))
         # operators on `&u8` / `u8` operands (`octet >> 6`, `octet & 7`)
         for tr, fnop in (("std::ops::Shr::shr", lambda a, b: a >> b), ("std::ops::Shl::shl", lambda a, b: a << b),
                          ("std::ops::BitAnd::bitand", lambda a, b: a & b), ("std::ops::BitOr::bitor", lambda a, b: a | b)):
@@ -1099,6 +1108,17 @@ class Sim:
             return ("value", UNK)
         if p == "std::option::Option::<T>::take":
             return None
+        if p in ("std::char::from_u32", "core::char::from_u32") or p.endswith("<impl char>::from_u32"):
+            n = d[0] if d else UNK
+            if isinstance(n, int):
+                okc = 0 <= n < 0x110000 and not (0xD800 <= n < 0xE000)
+                return ("value", Adt("std::option::Option", 1, [n]) if okc else Adt("std::option::Option", 0, []))
+            return ("value", UNK)
+        if p.endswith("<impl char>::encode_utf8") and d and isinstance(d[0], int) and 0 <= d[0] < 0x110000 \
+                and not (0xD800 <= d[0] < 0xE000):
+            return ("value", Bytes(list(chr(d[0]).encode("utf-8"))))
+        if p.endswith("<impl str>::as_bytes") and d and isinstance(d[0], Bytes):
+            return ("value", d[0])
         if p.endswith("<impl str>::contains") and len(d) == 2 and isinstance(d[0], Bytes):
             # `"!$%&".contains(c)` with a character or a string needle
             hay = bytes(d[0].b)
